@@ -59,6 +59,19 @@ BadImage(n, hole) ==
   ImageOf("sign", [P |-> BodyP, U |-> <<>>, payload |-> Pay,
                    sigs |-> [i \in 1..n |-> [P |-> Lay(i).P, U |-> <<>>, sig |-> IF i = hole THEN <<>> ELSE <<170, 187>>]]])
 
+\* wire images whose slot `hole` holds something that is no COSE_Signature at all: null, undefined, an empty array, a bare bstr
+Junk(j) == CASE j = "null" -> Null [] j = "undef" -> Undef [] j = "arr0" -> Arr(<<>>) [] j = "bstr" -> Bstr(<<170, 187>>)
+JunkImage(n, hole, j) ==
+  <<216, 98>> \o Enc(Arr(<<ProtBstr(BodyP), UnprotMap(<<>>), Bstr(Pay),
+                           Arr([i \in 1..n |-> IF i = hole THEN Junk(j) ELSE SigItem([P |-> Lay(i).P, U |-> <<>>, sig |-> <<170, 187>>])])>>))
+\* constructed message with a nil slot: cannot be serialised, signed or verified
+NilSlotProg(n, hole, what) ==
+  << [op |-> "new", obj |-> "m", kind |-> "sign", m |-> [P |-> BodyP, U |-> <<>>, payload |-> Pay,
+                                                       sigs |-> [i \in 1..n |-> [P |-> Lay(i).P, U |-> <<>>, sig |-> IF what = "sign" THEN <<>> ELSE <<170, 187>>]]]],
+     [op |-> "nilslot", obj |-> "m", slot |-> hole - 1] >>
+  \o (CASE what = "marshal" -> <<[op |-> "marshal", obj |-> "m", buf |-> "b"]>>
+        [] what = "sign" -> <<[op |-> "sign", obj |-> "m", signers |-> [i \in 1..n |-> Sg(i)]] @@ X>>
+        [] what = "verify" -> <<[op |-> "verify", obj |-> "m", verifiers |-> [i \in 1..n |-> Vf(i)]] @@ X>>)
 VARIABLE st
 Init == st = [phase |-> 0]
 PickN == st.phase = 0 /\ \E n \in 0..MaxN : \E dec \in BOOLEAN : st' = [phase |-> 1, n |-> n, dec |-> dec]
@@ -67,7 +80,9 @@ PickV == st.phase = 1 /\ \E vl \in VerifierLists(st.n) : \E c \in Corruptions(st
            (vl = Ident(st.n) \/ \A i \in 1..st.n : c[i] = "" \/ (st.n > 1 /\ vl = Rot(st.n)))
            /\ st' = [phase |-> 2, n |-> st.n, dec |-> st.dec, vl |-> vl, c |-> [i \in 1..st.n |-> c[i]]]
 PickBad == st.phase = 0 /\ \E n \in 0..MaxN : \E hole \in 0..n : (n = 0 \/ hole > 0) /\ st' = [phase |-> 3, n |-> n, hole |-> hole]
-Next == PickN \/ PickV \/ PickBad
+PickJunk == st.phase = 0 /\ \E n \in 1..MaxN : \E hole \in 1..n : \E j \in {"null", "undef", "arr0", "bstr"} : st' = [phase |-> 4, n |-> n, hole |-> hole, j |-> j]
+PickNil == st.phase = 0 /\ \E n \in 1..MaxN : \E hole \in 1..n : \E what \in {"marshal", "sign", "verify"} : st' = [phase |-> 5, n |-> n, hole |-> hole, what |-> what]
+Next == PickN \/ PickV \/ PickBad \/ PickJunk \/ PickNil
 Spec == Init /\ [][Next]_st
 
 Emit ==
@@ -76,5 +91,10 @@ Emit ==
     [] st.phase = 3 ->
          PrintT(<<"CASE", ToJson([flow |-> "baddecode", n |-> st.n, hole |-> st.hole, ext |-> <<>>,
                                   steps |-> <<[op |-> "unmarshal", obj |-> "m", kind |-> "sign", buf |-> "w", bytes |-> BadImage(st.n, st.hole)]>>])>>)
+    [] st.phase = 4 ->
+         PrintT(<<"CASE", ToJson([flow |-> "baddecode", n |-> st.n, hole |-> st.hole, j |-> st.j, ext |-> <<>>,
+                                  steps |-> <<[op |-> "unmarshal", obj |-> "m", kind |-> "sign", buf |-> "w", bytes |-> JunkImage(st.n, st.hole, st.j)]>>])>>)
+    [] st.phase = 5 ->
+         PrintT(<<"CASE", ToJson([flow |-> "nilslot", n |-> st.n, hole |-> st.hole, what |-> st.what, ext |-> X.ext, steps |-> NilSlotProg(st.n, st.hole, st.what)])>>)
     [] OTHER -> TRUE
 =============================================================================
